@@ -38,11 +38,13 @@ def AllServedComplete : Prop :=
     ((run (init n noFaults) sched).threads i).pc = .done →
     ∃ v st, ((run (init n noFaults) sched).threads i).view = .complete v st
 
-/-- proved part: schedules in which no request's Get removes a live writer's file (C12-a) and no
-    request takes the lock after a publication it missed (C12-c) -/
+/-- proved part: schedules in which no request's Get removes a live writer's file (C12-a), no
+    request takes the lock after a publication it missed (C12-c), and no stale release lets two
+    writers run at once (C12-b: the second revalidating writer loses the shared `.tmp` file) -/
 def AllServedCompletePartial : Prop :=
   ∀ (n : Nat) (sched : List Actor) (i : Nat), i < n →
     (run (init n noFaults) sched).liveRemovals = 0 → (run (init n noFaults) sched).lateWriters = 0 →
+    (run (init n noFaults) sched).staleReleases = 0 →
     ((run (init n noFaults) sched).threads i).pc = .done →
     ∃ v st, ((run (init n noFaults) sched).threads i).view = .complete v st
 
